@@ -3,10 +3,13 @@
 package splitcarfetcher
 
 import (
+	"bytes"
 	"encoding/base64"
 	"fmt"
+	"io"
 
 	"github.com/anjor/carlet"
+	rangecache "github.com/rpcpool/yellowstone-faithful/range-cache"
 )
 
 // C16.remote — the documented size validation of NewSplitCarReader for remote pieces
@@ -40,5 +43,88 @@ func VerifC16Remote() {
 	}
 	verifAssert(noneShort == 1, "C16.remote: NewSplitCarReader accepted a remote piece shorter than HeaderSize+ContentSize")
 	verifAssert(scr != nil, "C16.remote: nil reader without error")
+	verifReach("end")
+}
+
+// C16.remoteread — the production reader type for remote pieces: NewSplitCarReader over real
+// *HTTPSingleFileRemoteReaderAt values whose real RangeCache is fed by a model of the HTTP range
+// fetch (an in-memory remote file). Padded remote files (longer than HeaderSize+ContentSize) are
+// accepted, and every ReadAt — a window, the whole stream, the window again (cache: superset hit), the
+// whole stream again (cache: exact hit) — returns header ‖ content regions with the io.ReaderAt contract.
+func VerifC16RemoteRead() {
+	header := c16Header(3)
+	prefixed := append([]byte{3}, header...)
+	K := 1 + verifChoice("pieces", verifParam("maxK", 2))
+	meta := &carlet.CarPiecesAndMetadata{
+		OriginalCarHeader:     base64.StdEncoding.EncodeToString(header),
+		OriginalCarHeaderSize: uint64(len(prefixed)),
+	}
+	contentLens := []int{0, 3}
+	if verifParam("rich", 0) == 1 {
+		contentLens = []int{0, 1, 3}
+	}
+	remote := make([][]byte, K)
+	whole := append([]byte{}, prefixed...)
+	for k := 0; k < K; k++ {
+		hs := 2 * verifChoice("piece_header_size", 2)
+		cs := contentLens[verifChoice("piece_content_size", len(contentLens))]
+		pad := 1
+		if verifParam("rich", 0) == 1 {
+			pad = verifChoice("padding", 2)
+			if hs+cs+pad == 0 {
+				pad = 1 // NewRemoteHTTPFileAsIoReaderAt refuses empty remote files
+			}
+		}
+		remote[k] = verifBytes(fmt.Sprintf("remote%d", k), hs+cs+pad)
+		meta.CarPieces = append(meta.CarPieces, carlet.CarFile{Name: fmt.Sprintf("%d", k), HeaderSize: uint64(hs), ContentSize: uint64(cs)})
+		whole = append(whole, remote[k][hs:hs+cs]...)
+	}
+	fetches := 0
+	scr, err := NewSplitCarReader(meta, func(cf carlet.CarFile) (ReaderAtCloserSize, error) {
+		k := int(cf.Name[0] - '0')
+		data := remote[k]
+		rr := &HTTPSingleFileRemoteReaderAt{url: "http://piece/" + cf.Name, contentLength: int64(len(data))}
+		// model of remoteReadAt: the server answers a range inside the file completely
+		rr.ca = rangecache.NewRangeCache(int64(len(data)), cf.Name, func(p []byte, off int64) (int, error) {
+			fetches++
+			if off < 0 || off+int64(len(p)) > int64(len(data)) {
+				return 0, io.ErrUnexpectedEOF
+			}
+			return copy(p, data[off:]), nil
+		})
+		return rr, nil
+	})
+	verifAssert(err == nil, "C16.remoteread: NewSplitCarReader rejected remote pieces that are at least HeaderSize+ContentSize long")
+	if err != nil {
+		return
+	}
+	total := len(whole)
+	check := func(off, L int) {
+		p := make([]byte, L)
+		n, rerr := scr.ReadAt(p, int64(off))
+		want := total - off
+		if want < 0 {
+			want = 0
+		}
+		if want > L {
+			want = L
+		}
+		verifAssert(n == want, "C16.remoteread: n differs from min(len(p), total-off)")
+		if n == want && n > 0 {
+			verifAssert(bytes.Equal(p[:n], whole[off:off+n]), "C16.remoteread: bytes differ from header followed by the piece contents")
+		}
+		if want < L {
+			verifAssert(rerr == io.EOF, "C16.remoteread: short read without io.EOF")
+		} else {
+			verifAssert(rerr == nil, "C16.remoteread: full read returned an error")
+		}
+	}
+	base := len(prefixed) - 1
+	off := base + verifChoice("off", total-base+2)
+	L := verifChoice("len", verifParam("maxLen", 3)+1)
+	check(off, L)
+	check(0, total+1)
+	check(off, L)   // served from cached supersets
+	check(0, total) // served from exact cache entries
 	verifReach("end")
 }
